@@ -700,6 +700,20 @@ def groupOp (op : String) (args : List String) : M Resp := do
   | "grp.into_subgroup", [P] => do
     let p ← ptArg P
     optPtOut (if EPt.isTorsionFree p then some p else none)
+  | "grp.ed_group", [P] => do
+    let p ← ptArg P
+    ok [fmtBool (EPt.compress p == EPt.compress EPt.zero), ptOut (EPt.double p), ptOut EPt.zero, ptOut EPt.basepoint]
+  | "grp.sub_group", [P] => do
+    let p ← ptArg P
+    if EPt.isTorsionFree p then
+      ok [fmtBool (EPt.compress p == EPt.compress EPt.zero), ptOut (EPt.double p), ptOut EPt.zero, ptOut EPt.basepoint]
+    else pure Resp.none
+  | "grp.ris_group", [R, j] => do
+    let j ← natArg j
+    if j > 3 then badreq
+    match risDecode (← bytesN 32 R) with
+    | some p => ok [fmtBool (risEncode p == risEncode EPt.zero), risOut (EPt.double p), risOut EPt.zero, risOut EPt.basepoint]
+    | none => pure Resp.none
   | "grp.clear_cofactor", [P] => ok [ptOut (EPt.mulByPow2 3 (← ptArg P))]
   | "grp.is_torsion_free", [P] => ok [fmtBool (EPt.isTorsionFree (← ptArg P))]
   | "grp.from_uniform", [b] => ok [scOut (leToNat (← bytesN 64 b))]
